@@ -10,6 +10,10 @@ Oracle: the property stated directly in Python with Fractions (valid samples of 
 clamp > 100 -> 0, never negative, time order, energy against the generator's un-wrapped charge), evaluated on the
 implementation's output; on an exact grid it demands equality, on the off-grid stream a relative tolerance of 1e-9.
 A third, oracle-only stream runs the whole tool (Acelyzer API) on generated FLEX files.
+Options the result may not depend on: the log level (-D 0..4) is drawn per case in all three streams (the model has
+no such input, so a dependence shows in the tie as well as in the oracle). Size: long series (2500..6000 samples of a
+rank, most on its first lane, a few on further lanes that are early / anywhere / late in time) go through the
+registered stages and through the whole tool; the shortest also through the model.
 """
 import contextlib
 import copy
@@ -63,6 +67,7 @@ TRUSTED = [
 ]
 ASSUMPTIONS = [
     "default counter selection (power_ts4), skip_events off for the theorems and the oracle",
+    "the log level (-D 0..4) is not an input of the model: the Power counter must be the same at every level",
     "charge readings are integers in [0, 2^32); a reading of exactly 0 is 'no reading' (the code skips it)",
     "device slices reach extract_power_event as X (or b) events carrying args.Power, args.ts_all and dur",
     "events of one rank share a pid; helper counters carry no tid",
@@ -96,14 +101,20 @@ def quiet():
         yield
 
 
-def registered_power_stages(skip):
+LOGLEVELS = [0, 1, 2, 3, 4]             # -D: ERROR, WARNING, INFO (the CLI default), DEBUG, TRACE
+
+
+def registered_power_stages(skip, loglevel=0):
     """(callback, context, kwargs) of everything the real registration puts from extract_power_event up to and
-    including compute_power, with fresh contexts."""
+    including compute_power, with fresh contexts. The log level is the one of the run (-D): it is an option the
+    Power counter may not depend on, so the model has no such input."""
     from aiu_trace_analyzer.core.acelyzer import Acelyzer
-    argv = ["-i", "/nonexistent/c10.json", "-o", "/nonexistent/c10_out.json", "-D", "0"]
+    import aiu_trace_analyzer.logger as aiulog
+    argv = ["-i", "/nonexistent/c10.json", "-o", "/nonexistent/c10_out.json", "-D", str(loglevel)]
     if skip:
         argv.append("--skip_events")
     a = Acelyzer(argv)
+    aiulog.loglevel = loglevel          # (what Acelyzer.__init__ does with -D; stated here for the stage-level drive)
     r = _Rec()
     a.register_processing_functions(r, a.args, None)
     names = [s[0].__name__ for s in r.stages]
@@ -117,7 +128,7 @@ def slice_event(s):
     """generator description -> the dict the power block receives"""
     if s["ph"] == "C":
         return {"ph": "C", "name": s["name"], "pid": s["pid"], "ts": s["ts4"], "args": {"uid": s["id"], "n": 1}}
-    e = {"ph": s["ph"], "ts": s["ts3"], "pid": s["pid"], "tid": 3, "name": s["name"]}
+    e = {"ph": s["ph"], "ts": s["ts3"], "pid": s["pid"], "tid": s.get("tid", 3), "name": s["name"]}
     if s["ph"] in ("X", "b"):
         e["dur"] = s["dur"]
     if s["has"] != "noargs":
@@ -153,20 +164,30 @@ def obs(e):
     return [0, uid]
 
 
-def run_pipeline(skip, slices):
+def run_pipeline(skip, slices, loglevel=0):
     """Real EventProcessor + Engine over the really registered power stages; returns the recorded stream or Err."""
+    with quiet():           # (the try is inside: what an exception keeps alive is released, and may log, in here)
+        try:
+            return _run_pipeline(skip, slices, loglevel)
+        except Exception as e:  # noqa: BLE001
+            return enc.Err(type(e).__name__)
+        finally:
+            _reset_loglevel()
+
+
+def _reset_loglevel():
     try:
-        with quiet():
-            return _run_pipeline(skip, slices)
-    except Exception as e:  # noqa: BLE001
-        return enc.Err(type(e).__name__)
+        import aiu_trace_analyzer.logger as aiulog
+        aiulog.loglevel = 0
+    except Exception:  # noqa: BLE001
+        pass
 
 
-def _run_pipeline(skip, slices):
+def _run_pipeline(skip, slices, loglevel=0):
     import aiu_trace_analyzer.core.processing as processing
     import aiu_trace_analyzer.core.engine as engine
     from aiu_trace_analyzer.core.stage_profile import StageProfile
-    stages = registered_power_stages(skip)
+    stages = registered_power_stages(skip, loglevel)
     out = []
 
     def c10_tap(event, _ctx):
@@ -190,19 +211,21 @@ def _run_pipeline(skip, slices):
     return out
 
 
-def run_compute(skip, counters):
+def run_compute(skip, counters, loglevel=0):
     """compute_power (registered callback + its registered context) fed directly"""
-    try:
-        with quiet():
-            cb, cx, kw = registered_power_stages(skip)[-1]
+    with quiet():
+        try:
+            cb, cx, kw = registered_power_stages(skip, loglevel)[-1]
             out = []
             for c in counters:
                 r = cb(counter_event(c), cx, **kw) if kw else cb(counter_event(c), cx)
                 out += [obs(copy.deepcopy(x)) for x in r]
             out += [obs(x) for x in cx.drain()]
             return out
-    except Exception as e:  # noqa: BLE001
-        return enc.Err(type(e).__name__)
+        except Exception as e:  # noqa: BLE001
+            return enc.Err(type(e).__name__)
+        finally:
+            _reset_loglevel()
 
 
 # ---------------------------------------------------------------- oracle (the property, stated independently)
@@ -333,8 +356,8 @@ def oracle_compute(case, out):
 
 def run_case(case):
     if case["mode"] == 0:
-        return run_pipeline(case["skip"], case["slices"])
-    return run_compute(case["skip"], case["counters"])
+        return run_pipeline(case["skip"], case["slices"], case.get("loglevel", 0))
+    return run_compute(case["skip"], case["counters"], case.get("loglevel", 0))
 
 
 def oracle(case, out):
@@ -351,10 +374,15 @@ def fl(x):
     return f
 
 
-def gen_chain(r, offgrid=False):
+KINDS = ["normal"] * 6 + ["equal", "equal_long", "exact100", "above100", "over", "wrap", "tiny_dt"]
+KINDS_PLAUSIBLE = ["normal"] * 8 + ["equal", "equal_long", "exact100", "wrap"]      # never above 100 W: energy is checked
+
+
+def gen_chain(r, offgrid=False, n=None, kinds=KINDS):
     """time-ordered valid samples of one rank: [(t, U)] with U the un-wrapped charge; on the grid every quotient
     12*dQ/512/dt of consecutive samples is a dyadic rational (exact in double arithmetic)."""
-    n = r.choice([0, 1, 2, 2, 3, 3, 4, 5, 6, 8])
+    if n is None:
+        n = r.choice([0, 1, 2, 2, 3, 3, 4, 5, 6, 8])
     t = Fraction(r.randint(0, 2 ** 24), 1024) if not offgrid else Fraction(round(r.uniform(0, 1e7), 3)).limit_denominator(1000)
     if not offgrid and r.random() < 0.25:
         # epoch-scale host time as recorded in the field (~2^40..2^41 us): still exact on the 2^-10 us grid, and
@@ -371,7 +399,7 @@ def gen_chain(r, offgrid=False):
         u += 1
     chain = [(t, u)] if n else []
     for _ in range(max(0, n - 1)):
-        kind = r.choice(["normal"] * 6 + ["equal", "equal_long", "exact100", "above100", "over", "wrap", "tiny_dt"])
+        kind = r.choice(kinds)
         if offgrid:
             dt = Fraction(round(r.uniform(0.2, 5000.0), 3)).limit_denominator(1000)
             if kind == "equal_long":
@@ -514,7 +542,59 @@ def gen_pipeline_case(r, skip=False, offgrid=False):
     for s in slices:
         s.pop("_valid", None)
         s.pop("_dup", None)
-    return {"mode": 0, "skip": skip, "exact": not offgrid, "slices": slices, "truth": truth}
+    return {"mode": 0, "skip": skip, "exact": not offgrid, "slices": slices, "truth": truth,
+            "loglevel": r.choice(LOGLEVELS)}
+
+
+def gen_long_case(r, n, loglevel=0):
+    """size: one rank with a long power series (n valid samples) spread over several lanes (tids). The stream is lane
+    by lane (what the per-lane sorter in front of the power block delivers): the first lane carries most of the
+    samples, the further lanes carry few samples that lie early / anywhere / late in the time range of the first
+    one. A second, short rank may be interleaved. Half of the cases never exceed 100 W, so that the energy of the
+    whole series is compared with the charge delivered."""
+    plausible = r.random() < 0.5
+    pids = r.sample(PIDS, r.choice([1, 1, 2]))
+    nid = [0]
+
+    def item(pid, tid, t, u):
+        nid[0] += 1
+        d = Fraction(r.randint(0, 4096), 1024)
+        dur = r.choice([Fraction(1, 2), Fraction(3), Fraction(r.randint(110, 90000), 1024)])
+        return {"id": nid[0], "pid": pid, "tid": tid, "ph": "X", "name": r.choice(NAMES_OK), "has": "full",
+                "dur": fl(dur), "ts3": fl(max(t - d, 0)), "ts4": fl(t), "charge": u % W32, "as_str": False}
+    chain = gen_chain(r, n=n, kinds=KINDS_PLAUSIBLE if plausible else KINDS)
+    truth = {pids[0]: [chain[0][1], chain[-1][1]]}
+    nlanes = r.choice([1, 2, 2, 3, 4])
+    lane_of = [0] * len(chain)
+    for ln in range(1, nlanes):
+        where = r.choice(["early", "early", "anywhere", "late"])
+        lo, hi = {"early": (1, min(len(chain), 1000)), "anywhere": (1, len(chain)),
+                  "late": (len(chain) - min(len(chain), 1000), len(chain))}[where]
+        for i in r.sample(range(lo, hi), min(hi - lo, r.randint(1, 12))):
+            lane_of[i] = ln                  # (index 0 stays on the first lane: it is the earliest slice of the rank)
+    per = []
+    main = []
+    for ln in range(nlanes):
+        main += [item(pids[0], 10 + ln, t, u) for (t, u), l in zip(chain, lane_of) if l == ln]
+    per.append(main)
+    if len(pids) > 1:
+        ch2 = gen_chain(r, n=r.randint(2, 8))
+        truth[pids[1]] = [ch2[0][1], ch2[-1][1]]
+        per.append([item(pids[1], 10, t, u) for t, u in ch2])
+    slices = []
+    if len(per) == 2:                          # the short rank somewhere inside the long one, in one piece or spread
+        pos = sorted(r.randint(0, len(main)) for _ in per[1])
+        k = 0
+        for i, x in enumerate(main + [None]):
+            while k < len(pos) and pos[k] == i:
+                slices.append(per[1][k])
+                k += 1
+            if x is not None:
+                slices.append(x)
+    else:
+        slices = main
+    return {"mode": 0, "skip": False, "exact": True, "slices": slices, "truth": truth, "loglevel": loglevel,
+            "long": n}
 
 
 CATS = ["k Cmpt Exec", "k Cmpt Prep"]
@@ -527,10 +607,11 @@ def exhaustive_compute_cases(ctx):
     alpha = [(t, q, c) for t in times for q in charges for c in CATS]
     L = ctx.pick(3, 4)
     cases = []
-    for ln in range(0, L + 1):
-        for seq in itertools.product(alpha, repeat=ln):
-            cases.append({"mode": 1, "skip": False,
-                          "counters": [{"pid": 5, "cat": c, "ts": t, "key": t, "q": q} for t, q, c in seq]})
+    for lvl, lmax in ((0, L), (3, 2), (4, 2)):          # all of them quietly, the short ones also at DEBUG and TRACE
+        for ln in range(0 if lvl == 0 else 1, lmax + 1):
+            for seq in itertools.product(alpha, repeat=ln):
+                cases.append({"mode": 1, "skip": False, "loglevel": lvl,
+                              "counters": [{"pid": 5, "cat": c, "ts": t, "key": t, "q": q} for t, q, c in seq]})
     return cases
 
 
@@ -550,7 +631,7 @@ def gen_compute_case(r):
         q = r.choice([0, 315 * r.randint(1, 4000), W32 - 315 * r.randint(1, 4000), 315 * r.randint(1, 40)])
         cat = r.choice(NAMES_OK + NAMES_OK + NAMES_PREP)
         cnt.append({"pid": p, "cat": cat, "ts": k * unit, "key": k * unit, "q": q})
-    return {"mode": 1, "skip": r.random() < 0.15, "counters": cnt}
+    return {"mode": 1, "skip": r.random() < 0.15, "counters": cnt, "loglevel": r.choice(LOGLEVELS)}
 
 
 def load_corpus():
@@ -651,6 +732,8 @@ def e2e_scenario(r, k):
         t_b = host0 + (ts1 - cyc0) / freq
         t_e = host0 + (ts4 - cyc0) / freq
         u += r.randint(0, int(4000 * width / freq))
+        if r.random() < 0.2:                     # an implausible burst: far above 100 W since the previous TS4
+            u += r.randint(3, 40) * int(4267 * (width + 200000) / freq)
         q = u % W32 or 1
         name = f"kern{i} Cmpt Exec"
         attr = {"Power": hex(q), "TS1": hex(ts1 % W32), "TS2": hex(ts2 % W32), "TS3": hex(ts3 % W32),
@@ -660,7 +743,77 @@ def e2e_scenario(r, k):
         readings.append((ts4, q))
         gap = r.randint(5000, 200000)
         cyc = ts5 + gap
-    return {"pid": pid, "freq": freq, "events": evs, "readings": readings, "name": f"c10_e2e_{k}"}
+    return {"pid": pid, "freq": freq, "events": evs, "readings": readings, "name": f"c10_e2e_{k}",
+            "loglevel": r.choice(LOGLEVELS)}
+
+
+def e2e_long_scenario(r, k, n, loglevel=0):
+    """size: one rank, a first lane with n back-to-back device kernels and 1-3 further lanes with a few kernels that
+    run concurrently with the early part (or any part) of the first lane. All TS4 distinct, the accumulated charge
+    is monotone in TS4 time over all lanes (one charge counter per rank), with or without a wrap; sometimes an
+    implausible burst. `readings` is in TS4 order over all lanes."""
+    freq = 1024.0
+    pid = r.choice([0, 1, 2, 3])
+    cyc0 = r.randint(10 ** 6, 2 ** 30)
+    host0 = 1.0e6 + r.randint(0, 10 ** 6)
+    kern = []                                    # (tid, ts1, width)
+
+    def t4(ts1, width):
+        return ts1 + 2 * (width // 8) + width // 2
+    cyc = cyc0
+    for i in range(n):
+        width = r.randint(1024, 16384)
+        kern.append((77, cyc, width))
+        cyc += width + r.randint(64, 4096)
+    end = cyc
+    used = {t4(ts1, w) for _, ts1, w in kern}      # TS4 values taken
+    for ln in range(r.choice([1, 1, 2, 3])):
+        where = r.choice(["early", "early", "anywhere"])
+        span = (kern[min(n, 1000) - 1][1] if where == "early" else end) - cyc0
+        c = cyc0 + 2000 + r.randint(0, span // 40)
+        for _ in range(r.randint(1, 10)):
+            width = r.randint(1024, 16384)
+            while t4(c, width) in used:
+                c += 1
+            used.add(t4(c, width))
+            kern.append((78 + ln, c, width))
+            c += width + r.randint(64, max(65, span // 12))
+            if c > cyc0 + span:
+                break
+    order = sorted(range(len(kern)), key=lambda j: t4(kern[j][1], kern[j][2]))
+    u = r.randint(1, W32 - 1)
+    if r.random() < 0.5:
+        u = W32 - r.randint(1, 4000 * n)         # the charge counter wraps somewhere inside the series
+    burst = r.random() < 0.5
+    charge, readings, prev4 = {}, [], None
+    for j in order:
+        tid, ts1, width = kern[j]
+        ts4 = t4(ts1, width)
+        if prev4 is not None:
+            u += r.randint(0, int(4000 * (ts4 - prev4) / freq))
+            if burst and r.random() < 0.002:
+                u += r.randint(3, 40) * int(4267 * (ts4 - prev4) / freq + 1)
+        prev4 = ts4
+        charge[j] = u % W32 or 1
+        readings.append((ts4, charge[j]))
+    evs = []
+    by = r.choice(["lane", "lane", "start"])
+    idx = sorted(range(len(kern)), key=(lambda j: (kern[j][0], kern[j][1])) if by == "lane" else (lambda j: kern[j][1]))
+    for j in idx:
+        tid, ts1, width = kern[j]
+        ts2 = ts1 + width // 8
+        ts3 = ts2 + width // 8
+        ts4 = ts3 + width // 2
+        ts5 = ts1 + width
+        name = f"kern{j % 13} Cmpt Exec"
+        attr = {"Power": hex(charge[j]), "TS1": hex(ts1 % W32), "TS2": hex(ts2 % W32), "TS3": hex(ts3 % W32),
+                "TS4": hex(ts4 % W32), "TS5": hex(ts5 % W32)}
+        evs.append({"attr": dict(attr), "name": name, "ph": "B", "pid": pid, "tid": tid,
+                    "ts": host0 + (ts1 - cyc0) / freq})
+        evs.append({"attr": dict(attr), "name": name, "ph": "E", "pid": pid, "tid": tid,
+                    "ts": host0 + (ts4 - cyc0) / freq})
+    return {"pid": pid, "freq": freq, "events": evs, "readings": readings, "name": f"c10_e2e_long_{k}",
+            "loglevel": loglevel, "long": n, "lanes": len({t for t, _, _ in kern})}
 
 
 def run_e2e(ctx, sc, work):
@@ -669,13 +822,16 @@ def run_e2e(ctx, sc, work):
     inp = os.path.join(work, sc["name"] + ".json")
     outp = os.path.join(work, sc["name"] + "_out.json")
     json.dump(sc["events"], open(inp, "w"))
-    try:
-        with quiet():
-            rc = Acelyzer(["-i", inp, "-o", outp, "--freq", str(sc["freq"]), "-D", "0", "--disable_tb"]).run()
-    except SystemExit as e:
-        return None, f"SystemExit({e.code})"
-    except Exception as e:  # noqa: BLE001
-        return None, type(e).__name__ + ": " + str(e)[:200]
+    with quiet():
+        try:
+            rc = Acelyzer(["-i", inp, "-o", outp, "--freq", str(sc["freq"]), "-D", str(sc.get("loglevel", 0)),
+                           "--disable_tb"]).run()
+        except SystemExit as e:
+            return None, f"SystemExit({e.code})"
+        except Exception as e:  # noqa: BLE001
+            return None, type(e).__name__ + ": " + str(e)[:200]
+        finally:
+            _reset_loglevel()
     if rc != 0:
         return None, f"rc={rc}"
     data = json.load(open(outp))
@@ -687,8 +843,9 @@ def run_e2e(ctx, sc, work):
 
 def oracle_e2e(sc, got):
     """every kernel is a valid sample (distinct TS4, non-zero reading, long slices): n-1 counters, non-negative,
-    <= 100, strictly increasing ts, and P_i * (t_{i+1} - t_i) = 12/512 * dQ_i for all but the last counter (its end
-    time is not exported); dt between exported counters must also equal the TS4 cycle distance / freq."""
+    <= 100, strictly increasing ts, and P_i * (t_{i+1} - t_i) = 12/512 * dQ_i (0 when that is above 100 W, whatever
+    the log level); dt between exported counters must also equal the TS4 cycle distance / freq. `readings` is in
+    TS4 order over all lanes of the rank."""
     n = len(sc["readings"])
     fails = []
     if len(got) != n - 1:
@@ -699,10 +856,11 @@ def oracle_e2e(sc, got):
     for i, (t, w) in enumerate(got):
         if w < 0 or w > 100:
             fails.append({"kind": "e2e_out_of_bounds", "index": i})
-    for i in range(n - 2):
+    for i in range(n - 1):
         (c0, q0), (c1, q1) = sc["readings"][i], sc["readings"][i + 1]
         dt_true = Fraction(c1 - c0) / Fraction(sc["freq"])
-        dt_obs = Fraction(got[i + 1][0]) - Fraction(got[i][0])
+        # (the end of the last counter's interval is not exported: the TS4 distance of the input stands in for it)
+        dt_obs = Fraction(got[i + 1][0]) - Fraction(got[i][0]) if i + 1 < len(got) else dt_true
         # (freq 1024 MHz and an integer host origin: every time is a multiple of 2^-10 us, nothing may round it)
         if dt_true != dt_obs:
             fails.append({"kind": "e2e_counter_not_at_ts4", "index": i})
@@ -733,6 +891,13 @@ def gen_cases(ctx):
     return cases, off, n_corpus, len(exh)
 
 
+def long_sizes(ctx, r, k):
+    """k sizes in 2500..6000 (the first ones fixed, so that both ends are always visited) + their log levels"""
+    sizes = ([2500, 6000, 4100] + [r.randint(2500, 6000) for _ in range(k)])[:k]
+    levels = ([4, 2, 3, 1, 0] + [r.choice(LOGLEVELS) for _ in range(k)])[:k]
+    return list(zip(sizes, levels))
+
+
 def strip(case):
     return {k: v for k, v in case.items() if not k.startswith("_")}
 
@@ -742,7 +907,8 @@ def run(ctx):
     terms, failures, seen, nontriv = [], [], set(), 0
     dist = {"mode": {"pipeline": 0, "compute_only": 0}, "skip_events": 0, "slices_per_case": {}, "ranks": {},
             "features": {}, "impl_errors": {}, "offgrid_cases": len(off), "corpus": n_corpus,
-            "exhaustive_compute_sequences": n_exh}
+            "exhaustive_compute_sequences": n_exh, "loglevel": {}, "clamped_at_debug_or_trace": 0, "long_series": [],
+            "end_to_end_loglevel": {}, "end_to_end_long": []}
     for case in cases:
         out = run_case(case)
         terms.append((coq_case(case), enc.V(out)))
@@ -753,6 +919,8 @@ def run(ctx):
             seen.add(key)
             nontriv += nontrivial(case)
         dist["mode"]["pipeline" if case["mode"] == 0 else "compute_only"] += 1
+        lv = case.get("loglevel", 0)
+        dist["loglevel"][lv] = dist["loglevel"].get(lv, 0) + 1
         dist["skip_events"] += int(case["skip"])
         if isinstance(out, enc.Err):
             dist["impl_errors"][out.tag] = dist["impl_errors"].get(out.tag, 0) + 1
@@ -761,8 +929,10 @@ def run(ctx):
             dist["slices_per_case"][n] = dist["slices_per_case"].get(n, 0) + 1
             nr = len({s["pid"] for s in case["slices"]})
             dist["ranks"][nr] = dist["ranks"].get(nr, 0) + 1
-            for ft in features(case):
+            fts = features(case)
+            for ft in fts:
                 dist["features"][ft] = dist["features"].get(ft, 0) + 1
+            dist["clamped_at_debug_or_trace"] += int("clamped" in fts and lv >= 3 and not case["skip"])
     for case in off:                                   # off-grid: oracle only
         out = run_case(case)
         for f in oracle(case, out)[:1]:
@@ -771,15 +941,38 @@ def run(ctx):
         if key not in seen:
             seen.add(key)
             nontriv += nontrivial(case)
+        lv = case.get("loglevel", 0)
+        dist["loglevel"][lv] = dist["loglevel"].get(lv, 0) + 1
+    # size: long power series on several lanes (oracle; the shortest ones also go through the model)
+    r3 = random.Random(ctx.seed * 104729 + 5)
+    long_cases = [gen_long_case(r3, n, lv) for n, lv in long_sizes(ctx, r3, ctx.pick(10, 60))]
+    long_terms, long_tied = [], []
+    for j, case in enumerate(long_cases):
+        out = run_case(case)
+        for f in oracle(case, out)[:1]:
+            failures.append({"input": strip(case), "signature": f})
+        nontriv += nontrivial(case)
+        dist["long_series"].append({"samples": case["long"], "lanes": len({s["tid"] for s in case["slices"]}),
+                                    "ranks": len({s["pid"] for s in case["slices"]}), "loglevel": case["loglevel"],
+                                    "features": sorted(features(case))})
+        if case["long"] <= 3000 and len(long_terms) < ctx.pick(1, 4):      # (the model's sort is quadratic)
+            long_terms.append((coq_case(case), enc.V(out)))
+            long_tied.append(case)
     # end to end (oracle only)
     n_e2e, e2e_err = 0, {}
     work = tempfile.mkdtemp(prefix="c10_", dir=ctx.work)
     try:
         r2 = random.Random(ctx.seed * 7919 + 17)
-        for k in range(ctx.pick(40, 400)):
-            sc = e2e_scenario(r2, k)
+        scs = [e2e_scenario(r2, k) for k in range(ctx.pick(40, 400))]
+        scs += [e2e_long_scenario(r2, k, n, lv) for k, (n, lv) in enumerate(long_sizes(ctx, r2, ctx.pick(5, 30)))]
+        for sc in scs:
             got, err = run_e2e(ctx, sc, work)
             n_e2e += 1
+            lv = sc.get("loglevel", 0)
+            dist["end_to_end_loglevel"][lv] = dist["end_to_end_loglevel"].get(lv, 0) + 1
+            if "long" in sc:
+                dist["end_to_end_long"].append({"kernels_first_lane": sc["long"], "lanes": sc["lanes"],
+                                                "loglevel": lv})
             if err:
                 e2e_err[err[:60]] = e2e_err.get(err[:60], 0) + 1
                 failures.append({"input": {"mode": 2, "scenario": sc}, "signature": {"kind": "e2e_run_failed",
@@ -792,28 +985,41 @@ def run(ctx):
     dist["end_to_end_runs"] = n_e2e
     dist["end_to_end_errors"] = e2e_err
 
-    bad, extras, secs = coqrun.run_cases(
-        "C10", "From AiuModel Require Import Pipeline Power.", "((bool * Z) * list ev)", "model_val", terms,
-        shard=ctx.pick(250, 500))
+    from concurrent.futures import ThreadPoolExecutor
+    with ThreadPoolExecutor(max_workers=2) as ex:       # (coqc subprocesses: the long series evaluate alongside)
+        fut_l = ex.submit(coqrun.run_cases, "C10L", "From AiuModel Require Import Pipeline Power.",
+                          "((bool * Z) * list ev)", "model_val", long_terms, shard=1)
+        bad, extras, secs = coqrun.run_cases(
+            "C10", "From AiuModel Require Import Pipeline Power.", "((bool * Z) * list ev)", "model_val", terms,
+            shard=ctx.pick(250, 500))
+        bad_l, _, secs_l = fut_l.result()
     mism = [{"name": "correspondence Power.model_val vs registered extract_power_event/sort_events/compute_power",
              "case": strip(cases[j]), "impl": terms[j][1][:600]} for j in bad[:5]]
+    mism += [{"name": "correspondence Power.model_val vs registered power stages, long series",
+              "case": strip(long_tied[j]), "impl": long_terms[j][1][:600]} for j in bad_l[:2]]
     # a mismatching case is also given to the oracle search (it may be outside the oracle's domain)
     oracle_failures = [finish(shrink(f)) for f in failures[:3]]
     samples = [strip(cases[j]) for j in (n_corpus + n_exh, n_corpus + n_exh + 1, len(cases) - 1) if j < len(cases)]
     return {
-        "evaluations": len(cases) + len(off) + n_e2e, "distinct_nontrivial": nontriv,
+        "evaluations": len(cases) + len(off) + len(long_cases) + n_e2e, "distinct_nontrivial": nontriv,
         "rule": "distinct cases in which at least one rank has >= 2 valid samples (non-zero readings at distinct "
                 "times among the sampled slices / helper counters), counted over: corpus + all compute_power "
                 f"sequences of <= {ctx.pick(3, 4)} helper counters over a 18-letter alphabet ({n_exh}) + random slice streams through "
                 "the registered mini-pipeline (1-3 ranks, 0-8 valid samples each plus zero/duplicate/short/Prep/"
                 "incomplete neighbours, perturbed stream order) + random compute_power sequences + off-grid slice "
-                "streams (oracle only); end-to-end runs are counted in evaluations only",
+                "streams (oracle only) + long series of 2500..6000 samples on 1-4 lanes (oracle; the first "
+                f"{ctx.pick(1, 4)} also through the model); the log level 0..4 is drawn per case; end-to-end runs "
+                "(log level 0..4, some with 2500..6000 kernels on one lane and further lanes) are counted in "
+                "evaluations only",
         "samples": samples, "mismatches": mism, "oracle_failures": oracle_failures,
         "ties": [{"name": "Power.model_val = registered power stages on the real EventProcessor / compute_power alone",
                   "cases": len(cases), "mismatching": len(bad), "coq_seconds": round(secs, 1)},
-                 {"name": "oracle-only streams", "offgrid_cases": len(off), "end_to_end_runs": n_e2e}],
+                 {"name": "Power.model_val = registered power stages, long series (>= 2500 samples, several lanes)",
+                  "cases": len(long_terms), "mismatching": len(bad_l), "coq_seconds": round(secs_l, 1)},
+                 {"name": "oracle-only streams", "offgrid_cases": len(off), "long_series": len(long_cases),
+                  "end_to_end_runs": n_e2e}],
         "distribution": dist, "exhaustive": True,
-        "traces_validated_against_impl": len(cases) + len(off) + n_e2e,
+        "traces_validated_against_impl": len(cases) + len(off) + len(long_cases) + n_e2e,
     }
 
 
@@ -844,17 +1050,24 @@ def shrink(f):
         return f
     key = "slices" if case["mode"] == 0 else "counters"
     kind = f["signature"]["kind"]
-    changed = True
-    while changed:
-        changed = False
-        for k in range(len(case[key])):
+    t0 = time.time()
+    budget = 30.0 if len(case[key]) > 200 else 120.0          # long series: whole blocks first, within a time box
+    chunk = max(1, len(case[key]) // 2)
+    while time.time() - t0 < budget:
+        k, removed = 0, False
+        while k < len(case[key]) and time.time() - t0 < budget:
             c2 = dict(case)
-            c2[key] = case[key][:k] + case[key][k + 1:]
+            c2[key] = case[key][:k] + case[key][k + chunk:]
             c2.pop("truth", None) if kind != "energy" else None
             g = case_fails(c2)
             if g and g["kind"] == kind:
-                case, changed = c2, True
-                break
+                case, removed = c2, True
+            else:
+                k += chunk
+        if chunk > 1:
+            chunk //= 2
+        elif not removed:
+            break
     g = case_fails(case)
     return {"input": case, "signature": g or f["signature"]}
 
@@ -877,6 +1090,10 @@ def finish(f):
             per.setdefault(c["pid"], []).append((c["key"], c["q"]))
     f["expected"] = {str(p): [[t, str(w)] for t, w, _ in expected_power(valid_samples(v))] for p, v in per.items()}
     f["observed"] = repr(out) if isinstance(out, enc.Err) else [o for o in out if o[0] != 0]
+    if not isinstance(out, enc.Err) and len(f["observed"]) > 400:          # long series: the head is enough to read
+        f["expected"] = {p: v[:400] for p, v in f["expected"].items()}
+        f["observed"] = f["observed"][:400]
+        f["truncated"] = "expected / observed cut to 400 entries; the input is complete"
     return f
 
 
